@@ -306,10 +306,114 @@ func c15AllBytes(r *core.Run) {
 		})
 }
 
+// c15Fan: a node is filled with children one by one up to the full byte alphabet.
+type c15Fan struct {
+	Prefix core.S `json:"prefix"` // the node that is filled sits below this prefix
+	Order  string `json:"order"`  // ascending | descending | stride-97 (a permutation of 0..255)
+	Tail   core.S `json:"tail"`   // appended to every child (children are inner nodes when non-empty)
+}
+
+func c15FanOut(r *core.Run) {
+	core.Clause(r, "fan-out", core.Opts{Rule: "one node receives children for ALL 256 byte values, one Add at a time (3 insertion orders; node at the root, below a 1-byte and below a 3-byte prefix; children as leaves and as inner nodes; a sibling branch next to it): after EVERY Add (fan-out 1..256) Has on every child / prefix / extension and the ForEach multiset against the set model; at fan-out 255 and 256 also the JSON rebuild; then every child is deleted again, observed after each Delete; non-trivial = all",
+		Bounds: "fan-out 1..256 at one node x 3 orders x 3 prefixes x 2 child shapes"},
+		func(emit func(c15Fan) bool) {
+			for _, pre := range []string{"", "x", "\x00\xffq"} {
+				for _, ord := range []string{"ascending", "descending", "stride-97"} {
+					for _, tail := range []string{"", "tt"} {
+						if !emit(c15Fan{core.S(pre), ord, core.S(tail)}) {
+							return
+						}
+					}
+				}
+			}
+		},
+		func(c c15Fan) core.Outcome {
+			order := make([]byte, 256)
+			for i := range order {
+				switch c.Order {
+				case "ascending":
+					order[i] = byte(i)
+				case "descending":
+					order[i] = byte(255 - i)
+				default:
+					order[i] = byte(i * 97) // 97 is odd: a permutation of the 256 values
+				}
+			}
+			pre, tail := string(c.Prefix), string(c.Tail)
+			var probes []string
+			for b := 0; b < 256; b++ {
+				w := pre + string([]byte{byte(b)}) + tail
+				probes = append(probes, w)
+				if b%16 == 0 || b >= 254 {
+					probes = append(probes, w+"z", pre+string([]byte{byte(b)}))
+				}
+			}
+			probes = append(probes, "", pre, "yz", "y", "yzz")
+			var fail string
+			evals := 0
+			p := catch(func() {
+				t := trie.New()
+				m := ref.TrieSet{}
+				if f := applyTrieOp(t, m, "+yz"); f != "" {
+					fail = f
+					return
+				}
+				for i, b := range order {
+					w := pre + string([]byte{b}) + tail
+					if f := applyTrieOp(t, m, "+"+w); f != "" {
+						fail = f
+						return
+					}
+					evals++
+					if f := observeTrie(t, m, probes, fmt.Sprintf("the node below %q has %d children", pre, i+1)); f != "" {
+						fail = f
+						return
+					}
+					if i >= 254 {
+						js, f := trieKey(t)
+						if f != "" {
+							fail = f
+							return
+						}
+						t2 := trie.New()
+						if err := json.Unmarshal([]byte(js), t2); err != nil {
+							fail = "UnmarshalJSON failed on own output: " + err.Error()
+							return
+						}
+						if f := observeTrie(t2, m, probes, fmt.Sprintf("rebuilt from JSON when the node below %q has %d children", pre, i+1)); f != "" {
+							fail = f
+							return
+						}
+					}
+				}
+				for i, b := range order {
+					w := pre + string([]byte{b}) + tail
+					if f := applyTrieOp(t, m, "-"+w); f != "" {
+						fail = f
+						return
+					}
+					evals++
+					if f := observeTrie(t, m, probes, fmt.Sprintf("%d of the 256 children below %q deleted again", i+1, pre)); f != "" {
+						fail = f
+						return
+					}
+				}
+			})
+			if p != "" {
+				return core.Failf("fan-out below %q (%s): panic: %s", pre, c.Order, p)
+			}
+			if fail != "" {
+				return core.Failf("fan-out below %q (%s order, children %q+b+%q): %s", pre, c.Order, pre, tail, trunc(fail, 600))
+			}
+			return core.Outcome{Class: "ok", Nontrivial: true, Evals: evals}
+		})
+}
+
 func runC15(r *core.Run) {
 	defer racePass(r, "race-C15", "Has, ForEach and MarshalJSON on one shared trie")
 
 	c15AllBytes(r)
+	c15FanOut(r)
 	type cfg struct {
 		sigma string
 		d     int
